@@ -53,6 +53,10 @@ def gen_bench(rs, noise_allowed=True, tier="quick"):
         else:
             p = r.choice([0, 1e-9, 1e-3, r.uniform(0, pmax), r.uniform(0, 2 * pmax), pmax, 10 * pmax, r.choice([6, 8, 16, 32])])
         ops.append({"op": "charge", "pilot": p, "period": period if r.random() < 0.9 else r.choice([1, 5, 15, 60, 120])})
+        rv = sub(rs, "op_voltage", i)
+        if rv.random() < 0.07:
+            # the car is moved to a station of another supply voltage (same battery object, same period length)
+            ops[-1]["voltage"] = rv.choice([x_ for x_ in (120, 208, 240, 277, 400) if x_ != V])
     tape = r.choice(["prng", "zeros", "extreme", "alt"])
     return {"seed": rs, "battery": b, "voltage": V, "ops": ops, "tapes": {"noise": tape}}
 
@@ -107,7 +111,7 @@ def run_bench(sc, on_call):
                 batt.reset()
                 on_call(i, op, pre, (float(batt._current_charge), float(batt.current_charging_power)), None, batt)
                 continue
-            rate = batt.charge(op["pilot"], sc["voltage"], op["period"])
+            rate = batt.charge(op["pilot"], op.get("voltage", sc["voltage"]), op["period"])
             post = (float(batt._current_charge), float(batt.current_charging_power))
             on_call(i, op, pre, post, float(rate), batt)
     finally:
